@@ -77,6 +77,9 @@ ApplyX(s, c) ==
              ELSE Ok(IF c.op = "uniquify" THEN Uniquify(s, c.n) ELSE Flatten(s, c.n))
       [] c.op = "q" -> [s |-> s, out |-> "ok", ret |-> <<>>]
       [] c.op = "compare" -> [s |-> s, out |-> "ok", ret |-> <<Differs(s, c.a, c.b)>>]
+      [] c.op \in {"edif_read", "edif_rt"} ->      \* model: a file round trip yields a self-contained copy
+             IF ~(c.n \in IdsN(s)) THEN Refuse(s)
+             ELSE LET r == CloneOf(s, "N", c.n) IN OkRet(r.s, <<r.root>>)
       [] c.op = "clone" ->
              IF ~Exists(s, c.kind, c.x) THEN Refuse(s)
              ELSE LET r == CloneOf(s, c.kind, c.x) IN OkRet(r.s, <<r.root>>)
@@ -110,8 +113,8 @@ BuildCands(s, sc) ==
      THEN UNION {LET slots == SlotsOf(s, d)
                      used == {j \in DOMAIN slots : WireOfRef(s, slots[j]) # None}
                      from == IF used = {} THEN 1 ELSE 1 + CHOOSE m \in used : \A u \in used : u <= m
-                 IN {[op |-> "connect", w |-> w, pin |-> slots[j], pos |-> NoPos] :
-                        <<w, j>> \in SeqSet(WiresOf(s, d)) \X (from..Len(slots))}
+                 IN {[op |-> "connect", w |-> w, pin |-> slots[j], pos |-> pos] :
+                        <<w, j, pos>> \in SeqSet(WiresOf(s, d)) \X (from..Len(slots)) \X sc.pos}
                  : d \in sc.parents \cap IdsD(s)}
      ELSE {})
 
